@@ -228,7 +228,8 @@ NotifyLocal(c, n) ==
     IF n.pc # "loop" THEN {}
     ELSE UNION {
         LET t == x[1] s == x[2] IN
-        IF s = "misbehaving" THEN {SetNot(c, n, [n EXCEPT !.todo = @ \ {x}])}
+        \* (a tower skipped as misbehaving is one the handler has finished with: without a proof on disk it is not exempt)
+        IF s = "misbehaving" THEN {[SetNot(c, n, [n EXCEPT !.todo = @ \ {x}]) EXCEPT !.done = Done(c, t, n.l)]}
         ELSE IF c.poisoned THEN {NotDies(c, n)}
         ELSE IF s = "reachable"
              THEN (IF c.up[t] THEN {} ELSE NotPending(c, n, t, "conn", TRUE, {}))
